@@ -1,0 +1,29 @@
+//go:build verif
+
+package rtpmpegts
+
+// Contracts checked by /verif/govc (see /verif/DESIGN.md). Comment-only file.
+
+// C06: every RTP packet carries a whole number of 188-byte TS packets, at most as many as fit
+// in PayloadMaxSize, and the packets are numbered consecutively from the encoder state.
+//@ func (e *Encoder) Encode
+//@   opt frame-tag=C06
+//@   requires e.SSRC != nil && e.PayloadMaxSize >= 188 && e.PayloadMaxSize <= 65535 && len(tsPackets) >= 1 && len(tsPackets) <= 1000000
+//@   ensures[C06] err == nil && len(ret) >= 1
+//@   ensures[C06] forall j :: 0 <= j && j < len(ret) ==> ret[j] != nil && len(ret[j].Payload) <= e.PayloadMaxSize && len(ret[j].Payload) >= 188
+//@   ensures[C06] forall j :: 0 <= j && j < len(ret) ==> ret[j].SequenceNumber == old(e.sequenceNumber) + uint16(j)
+//@   ensures[C06] e.sequenceNumber == old(e.sequenceNumber) + uint16(len(ret))
+//@   ensures[C06] forall j :: 0 <= j && j < len(ret) ==> ret[j].PayloadType == 33 && ret[j].SSRC == *e.SSRC
+//@   modifies e.sequenceNumber, fresh
+//@   loop 1
+//@     invariant 0 <= _it && _it < rtpPacketCount && len(rets) == rtpPacketCount && fresh(rets) && maxTSPacketsPerRTPPacket >= 1 && 188*maxTSPacketsPerRTPPacket <= e.PayloadMaxSize
+//@     invariant (rtpPacketCount-1)*maxTSPacketsPerRTPPacket < old(len(tsPackets)) && old(len(tsPackets)) <= rtpPacketCount*maxTSPacketsPerRTPPacket
+//@     invariant len(tsPackets) == old(len(tsPackets)) - _it*maxTSPacketsPerRTPPacket && ref(tsPackets) == old(ref(tsPackets)) && off(tsPackets) == old(off(tsPackets)) + _it*maxTSPacketsPerRTPPacket
+//@     invariant e.SSRC == old(e.SSRC) && e.PayloadMaxSize == old(e.PayloadMaxSize) && *e.SSRC == old(*e.SSRC)
+//@     invariant e.sequenceNumber == old(e.sequenceNumber) + uint16(_it)
+//@     invariant forall j :: 0 <= j && j < _it ==> rets[j] != nil && fresh(rets[j]) && len(rets[j].Payload) <= e.PayloadMaxSize && len(rets[j].Payload) >= 188
+//@     invariant forall j :: 0 <= j && j < _it ==> rets[j].SequenceNumber == old(e.sequenceNumber) + uint16(j)
+//@     invariant forall j :: 0 <= j && j < _it ==> rets[j].PayloadType == 33 && rets[j].SSRC == *e.SSRC
+//@   loop 2
+//@     invariant 0 <= _it && _it < tsPacketCount && 0 <= n && n <= len(payload) && len(payload) == 188*tsPacketCount && fresh(payload) && tsPacketCount >= 1
+//@     invariant len(tsPackets) == old(len(tsPackets)) - i*maxTSPacketsPerRTPPacket - _it && ref(tsPackets) == old(ref(tsPackets)) && off(tsPackets) == old(off(tsPackets)) + i*maxTSPacketsPerRTPPacket + _it && len(tsPackets) >= tsPacketCount - _it
